@@ -803,7 +803,8 @@ func describe(st *mfState, col string) string {
 // ---- C16: bulk setters ----
 
 type bulkLine struct {
-	Tokens []string `json:"tokens"`
+	Tokens []string `json:"tokens"` // as written (blocks are sorted by the written tokens)
+	Vals   []string `json:"vals"`   // as read (a double-quoted token stands for its value)
 	Cb     string   `json:"cb"`
 	Cs     string   `json:"cs"`
 }
@@ -816,6 +817,20 @@ type bulkBlock struct {
 
 // blockStructure reports the statements of a syntax tree: verb, whether it is a block, and per line the
 // tokens (without the verb) with the leading and end-of-line comment texts.
+// tokenValues: tokens as the directive layer reads them (a double-quoted token stands for its value)
+func tokenValues(toks []string) []string {
+	out := make([]string, len(toks))
+	for i, t := range toks {
+		out[i] = t
+		if strings.HasPrefix(t, "\"") {
+			if v, err := strconv.Unquote(t); err == nil {
+				out[i] = v
+			}
+		}
+	}
+	return out
+}
+
 func blockStructure(fs *modfile.FileSyntax) []bulkBlock {
 	var out []bulkBlock
 	for _, st := range fs.Stmt {
@@ -825,7 +840,7 @@ func blockStructure(fs *modfile.FileSyntax) []bulkBlock {
 				continue
 			}
 			cb, cs := lineComments(x)
-			out = append(out, bulkBlock{Verb: x.Token[0], Lines: []bulkLine{{Tokens: append([]string{}, x.Token[1:]...), Cb: cb, Cs: cs}}})
+			out = append(out, bulkBlock{Verb: x.Token[0], Lines: []bulkLine{{Tokens: append([]string{}, x.Token[1:]...), Vals: tokenValues(x.Token[1:]), Cb: cb, Cs: cs}}})
 		case *modfile.LineBlock:
 			if len(x.Token) == 0 {
 				continue
@@ -833,7 +848,7 @@ func blockStructure(fs *modfile.FileSyntax) []bulkBlock {
 			b := bulkBlock{Verb: x.Token[0], Block: true, Lines: []bulkLine{}}
 			for _, l := range x.Line {
 				cb, cs := lineComments(l)
-				b.Lines = append(b.Lines, bulkLine{Tokens: append([]string{}, l.Token...), Cb: cb, Cs: cs})
+				b.Lines = append(b.Lines, bulkLine{Tokens: append([]string{}, l.Token...), Vals: tokenValues(l.Token), Cb: cb, Cs: cs})
 			}
 			out = append(out, b)
 		}
